@@ -124,6 +124,20 @@ HalfLength(k, a, olo, on) ==
   \A d \in Axes : Max2(a.lo[d] + a.n[d], olo[d] + on[d]) - Min2(a.lo[d], olo[d]) <= Max2(1, k.n[d] \div 2)
 
 (* ------------------------------------------------------------------------ *)
+(* Fixed-point observations of the padded-DFT route (encoding F): the       *)
+(* output is logged as round(v * 2^fk).  Error model: the route computes    *)
+(* inverse(DFT(kernel) * DFT(data)); with the normwise FFT bound            *)
+(* ||X^ - X||_2 <= stages * 2^-20 * ||X||_2 (see DFT4.tla) every output     *)
+(* differs from the exact periodic convolution by at most                   *)
+(* 3 (stages+1) 2^-20 ||kernel||_1 ||data||_2 <= ... ||kernel||_1 ||data||_1.*)
+(* ------------------------------------------------------------------------ *)
+P2(e) == 2 ^ e
+CeilShift(v, e) == IF e >= 0 THEN v * P2(e) ELSE (v + P2(-e) - 1) \div P2(-e)
+L1(a) == Sum([q \in 1..Size(a.n) |-> Abs(a.v[q])])
+Log2Ceil(n) == CHOOSE e \in 0..31 : P2(e) >= n /\ (e = 0 \/ P2(e - 1) < n)
+DFTRouteTol(k, a, fk) == 1 + CeilShift(3 * (Log2Ceil(Size(k.n)) + 2) * L1(k) * L1(a), fk - 20)
+
+(* ------------------------------------------------------------------------ *)
 (* Theorems (checked by TLC in MC_Conv for all small instances)             *)
 (* ------------------------------------------------------------------------ *)
 \* "separable filters equal the successive one-dimensional filters in any axis order"
